@@ -1,6 +1,10 @@
 #!/bin/bash
-# Builds the whole harness once, offline, from files on disk.
+# Builds the whole harness once, offline, from files on disk: the check binaries (hooks on), the
+# libFuzzer/ASan targets (nightly) and the Miri sysroot + crate. Runs no check.
 set -e
-cd "$(dirname "$0")/../harness"
+root="$(cd "$(dirname "$0")/.." && pwd)"
 export CARGO_NET_OFFLINE=true
+cd "$root/harness"
 cargo build --offline --workspace 2>&1 | tail -3
+( cd fuzz && RUSTFLAGS="--cfg iceoryx2_verif" cargo +nightly fuzz build 2>&1 | tail -2 ) || echo "note: fuzz targets could not be pre-built (the stage builds them on demand)"
+( cd miri && MIRIFLAGS="-Zmiri-disable-stacked-borrows -Zmiri-permissive-provenance -Zmiri-disable-isolation" VERIF_MIRI_PROGRAM=iq:1:1:1 cargo +nightly miri run 2>&1 | tail -2 ) || echo "note: miri warm-up failed (the stage reports that as inconclusive)"
